@@ -27,7 +27,7 @@ from ..world import World, norm_rows, scratch_dir, sort_key
 
 NAME = "crash"
 PROPERTIES = ["C18"]
-CAP_POINTS = {"quick": 32, "thorough": 160}
+CAP_POINTS = {"quick": 40, "thorough": 200}
 
 SPEC = {
     "runs": {"quick": 100, "thorough": 400},
@@ -37,12 +37,13 @@ SPEC = {
     "max_minimise": 4,
     "minimise_wall": 150,
     "level": "fault_enumeration",
-    "technique": "deterministic simulation with fault injection: forked writer/restart process pairs; per seeded history every op boundary (clean exit, body exception), every engine call (kill before/after) and every file-system call (kill / torn write via LD_PRELOAD shim) is enumerated; restart state checked against a durability acceptance set",
+    "technique": "deterministic simulation with fault injection: forked writer/restart process pairs; per seeded history every op boundary (clean exit, body exception), every engine call (kill before/after) and every file-system call (kill / torn write / EIO once / disk full from there on, via LD_PRELOAD shim) is enumerated; restart state checked against a durability acceptance set",
     "level_text": (
         "For each seeded short history (3-12 ops: DDL, DML, transactions left open or committed, CREATE DATABASE by statement, comments "
         "and VARCHAR lengths, MERGE, views) the crash points are enumerated: every op boundary x {clean exit, exception in the with-body}, "
         "every engine call x {kill before, kill after}, every write/pwrite/fsync/ftruncate/unlink/rename on the database files x {kill, "
-        "torn write} (capped per history, evenly spaced beyond the cap). A fresh process then re-opens the same db_path and its observable "
+        "torn write, the call failing once with EIO, the disk being full from this call on (ENOSPC) - after a disk error the program stops at the first statement that "
+        "reports it and leaves cleanly or by an exception} (capped per history, evenly spaced beyond the cap). A fresh process then re-opens the same db_path and its observable "
         "state (catalog, rows, comments, VARCHAR lengths) must equal the committed state before or after the single in-flight statement, "
         "exactly the committed state after a clean/exception exit. Histories are sampled; crash points per history are enumerated."
     ),
@@ -56,11 +57,11 @@ SPEC = {
         "(the writer died or left at the planned point) after at least one statement had been acknowledged or while one was in flight; "
         "distinct = (history fingerprint, fault kind, in-flight statement kind, index of the point)"
     ),
-    "bounds": "1-2 sessions, 3-12 ops per history, <=32 (quick) / <=160 (thorough) crash points per history",
+    "bounds": "1-2 sessions, 3-12 ops per history, <=40 (quick) / <=200 (thorough) fault points per history",
     "components_real": ["fakesnow/* incl. patch()", "snowflake.connector (patched entry points)", "sqlglot", "duckdb engine with its real file format and WAL on a tmpfs/disk directory", "process death (fork + _exit)"],
-    "components_stubbed": ["kill timing (chosen engine call / syscall index instead of a signal)", "torn write (page-aligned prefix written by the shim)"],
+    "components_stubbed": ["kill timing (chosen engine call / syscall index instead of a signal)", "torn write (page-aligned prefix written by the shim)", "disk errors (the shim returns -1 with EIO / ENOSPC instead of calling the kernel)"],
     "assumptions": ["page cache survives the kill", "single writer process per db_path at a time"],
-    "mandatory_probes": {"any": ["kill_before_event", "kill_after_event", "kill_at_syscall", "torn_write", "clean_exit", "body_exception", "inflight_statement", "open_txn_at_fault", "memory_scenario", "memory_next_to_db_path"]},
+    "mandatory_probes": {"any": ["kill_before_event", "kill_after_event", "kill_at_syscall", "torn_write", "disk_eio_once", "disk_full", "disk_error_surfaced_in_statement", "clean_exit", "body_exception", "inflight_statement", "open_txn_at_fault", "memory_scenario", "memory_next_to_db_path", "own_view_checks"]},
 }
 
 HAZARDS = ["multi_call_statement"]
@@ -452,7 +453,7 @@ def _emit(w: int, rec: dict[str, Any]) -> None:
     os.write(w, (json.dumps(rec, default=repr) + "\n").encode())
 
 
-def proc_a(w: int, D: str, case: dict[str, Any], fault: dict[str, Any], reference: bool) -> None:
+def proc_a(w: int, D: str, case: dict[str, Any], fault: dict[str, Any], reference: bool, ref_ok: list[bool] | None = None) -> None:
     import fakesnow
 
     sim = core.begin(D)
@@ -469,7 +470,10 @@ def proc_a(w: int, D: str, case: dict[str, Any], fault: dict[str, Any], referenc
     have_shim = hasattr(lib, "fsv_arm")
     if have_shim:
         lib.fsv_count.restype = ctypes.c_long
-        lib.fsv_arm(D.encode(), ctypes.c_long(fault["K"] if kind == "syscall" else -1), ctypes.c_int(fault.get("torn", 0)))
+        lib.fsv_arm(D.encode(), ctypes.c_long(fault["K"] if kind in ("syscall", "ioerr") else -1), ctypes.c_int(fault["mode"] if kind == "ioerr" else fault.get("torn", 0)))
+        if kind == "ioerr":
+            lib.fsv_failed.restype = ctypes.c_long
+    how = "clean"
     try:
         with fakesnow.patch(db_path=D):
             world = PatchedWorld(sim)
@@ -481,6 +485,12 @@ def proc_a(w: int, D: str, case: dict[str, Any], fault: dict[str, Any], referenc
                     break
                 _emit(w, {"ev": "op_start", "i": j, "events": sim.engine_events, "sys": lib.fsv_count() if have_shim else 0})
                 out = world.apply(op)
+                if kind == "ioerr" and ref_ok is not None and bool(out.get("ok")) != ref_ok[j]:
+                    # the injected disk error surfaced in this statement: it was NOT acknowledged; the program gives up here
+                    _emit(w, {"ev": "diverged", "i": j, "exc": out.get("exc"), "msg": str(out.get("msg"))[:200], "failed_calls": lib.fsv_failed()})
+                    if fault.get("exit") == "exception":
+                        raise BodyError()
+                    break
                 _emit(w, {"ev": "op_done", "i": j, "ok": out.get("ok"), "exc": out.get("exc"), "events": sim.engine_events, "sys": lib.fsv_count() if have_shim else 0})
                 if reference:
                     snap = snapshot_dbpath(sim, D)
@@ -490,9 +500,14 @@ def proc_a(w: int, D: str, case: dict[str, Any], fault: dict[str, Any], referenc
                     idle = [sid for sid in case["config"]["sessions"] if not open_txn.get(sid, False)]
                     for dv in own_vs_committed(sim, world, idle, [d for d in snap["dbs"] if d not in snap["attach_errors"]]):
                         _emit(w, {"ev": "own_diff", "i": j, **dv})
-        _emit(w, {"ev": "end", "how": "clean", "events": sim.engine_events, "sys": lib.fsv_count() if have_shim else 0, "shim": have_shim})
     except BodyError:
-        _emit(w, {"ev": "end", "how": "exception", "events": sim.engine_events, "sys": lib.fsv_count() if have_shim else 0, "shim": have_shim})
+        how = "exception"
+    except BaseException as e:  # noqa: BLE001
+        if kind != "ioerr":
+            raise
+        how = f"exit-raised:{type(e).__name__}"  # leaving patch() on a failing disk may raise; the process ends all the same
+    _emit(w, {"ev": "end", "how": how, "events": sim.engine_events, "sys": lib.fsv_count() if have_shim else 0, "shim": have_shim,
+              "failed_calls": lib.fsv_failed() if (have_shim and kind == "ioerr") else 0})
     os._exit(0)
 
 
@@ -608,6 +623,32 @@ def _judge(case: dict[str, Any], fault: dict[str, Any], recs_a: list[dict[str, A
     last_done = max(done) if done else -1
     inflight = started[-1] if started and (not done or started[-1] > last_done) else None
     before = snaps[last_done] if last_done >= 0 else empty
+    if fault["kind"] == "ioerr":
+        # a disk error (EIO once / disk full from here on): every statement acknowledged before the program gave up must
+        # survive; the statement in which the error surfaced (it raised, or the process died in it) may be there or not
+        mode = "eio" if fault["mode"] == 2 else "enospc"
+        div = next((r for r in recs_a if r["ev"] == "diverged"), None)
+        stop = div["i"] if div is not None else inflight  # inflight: the engine aborted the process inside this statement
+        if snap_b.get("attach_errors"):
+            what = op_kind(case["ops"][stop]) if stop is not None else "idle"
+            if what in ("connect", "create_db"):
+                what = "database-file-creation"
+            return v_(f"disk-error/restart-fails/{what}/{mode}", "a database file could not be re-opened after a disk error", {"fault": fault, "errors": snap_b["attach_errors"], "surfaced": div})
+        if stop is None:
+            d = diff(snap_b, before)
+            if d:
+                return v_(f"disk-error/acknowledged-lost/{mode}", "every statement was acknowledged although a disk error was injected, yet the restart does not show their committed state",
+                          {"fault": fault, "last_acknowledged_op": last_done, "diff": explain(snap_b, before, d)})
+            return None
+        op = case["ops"][stop]
+        prev = snaps[stop - 1] if stop > 0 else empty
+        after = snaps[stop]
+        ignore = ("dbs", "schemas") if op["k"] == "connect" else ()
+        d0, d1 = diff(snap_b, prev, ignore), diff(snap_b, after, ignore)
+        if d0 and d1:
+            return v_(f"disk-error/torn/{op_kind(op)}/{mode}/{'+'.join(d1)}", "after a disk error the restart shows neither the state before nor after the statement in which it surfaced",
+                      {"fault": fault, "surfaced_in": {k: op.get(k) for k in ("s", "k", "sql")}, "error": div, "vs_before": explain(snap_b, prev, d0), "vs_after": explain(snap_b, after, d1)})
+        return None
     if snap_b.get("attach_errors"):
         what = op_kind(case["ops"][inflight]) if inflight is not None else "idle"
         if what in ("connect", "create_db"):
@@ -682,6 +723,7 @@ def run(case: dict[str, Any]) -> dict[str, Any]:
         oks = {r["i"]: r for r in recs if r["ev"] == "op_done"}
         if code != 0 or len(snaps) != len(case["ops"]):
             raise core.HarnessError(f"reference run did not complete: exit {code}, {len(snaps)}/{len(case['ops'])} snapshots")
+        ref_ok = [bool(oks[i].get("ok")) for i in range(len(case["ops"]))]  # outcome of every op without a fault (some are meant to fail)
         all_names = sorted({d for sn in snaps for d in sn["dbs"]})
         shutil.rmtree(D, ignore_errors=True)
         probes["own_view_checks"] = len(snaps)
@@ -718,6 +760,8 @@ def run(case: dict[str, Any]) -> dict[str, Any]:
                 for K in range(1, Y + 1):
                     points.append({"kind": "syscall", "K": K, "torn": 0})
                     points.append({"kind": "syscall", "K": K, "torn": 1})
+                    points.append({"kind": "ioerr", "K": K, "mode": 2, "exit": "clean" if K % 2 else "exception"})
+                    points.append({"kind": "ioerr", "K": K, "mode": 3, "exit": "exception" if K % 2 else "clean"})
             cap = CAP_POINTS.get(tier, 48)
             if len(points) > cap:
                 step = len(points) / cap
@@ -728,7 +772,7 @@ def run(case: dict[str, Any]) -> dict[str, Any]:
         for pi, fault in enumerate(points):
             D = os.path.join(base, f"p{pi}")
             os.makedirs(D)
-            code, ra = in_child(proc_a, D, case, fault, False)
+            code, ra = in_child(proc_a, D, case, fault, False, ref_ok)
             _, rb = in_child(proc_b, D, all_names)
             pairs += 1
             shutil.rmtree(D, ignore_errors=True)
@@ -736,8 +780,17 @@ def run(case: dict[str, Any]) -> dict[str, Any]:
             done = [r["i"] for r in ra if r["ev"] == "op_done"]
             steps += max([r.get("events", 0) for r in ra] or [0])
             fired = (code == 137) if fault["kind"] in ("event", "syscall") else any(r["ev"] == "end" for r in ra)
+            if fault["kind"] == "ioerr":
+                fired = any(r.get("failed_calls", 0) > 0 for r in ra)
+                if not any(r["ev"] == "end" for r in ra):
+                    fired = True
+                    probes["process_died_on_disk_error"] = probes.get("process_died_on_disk_error", 0) + 1
+                elif any(r["ev"] == "diverged" for r in ra):
+                    probes["disk_error_surfaced_in_statement"] = probes.get("disk_error_surfaced_in_statement", 0) + 1
+                elif fired:
+                    probes["disk_error_absorbed"] = probes.get("disk_error_absorbed", 0) + 1
             name = {"clean": "clean_exit", "exception": "body_exception"}.get(fault["kind"]) or (
-                f"kill_{fault['phase']}_event" if fault["kind"] == "event" else ("torn_write" if fault.get("torn") else "kill_at_syscall"))
+                f"kill_{fault['phase']}_event" if fault["kind"] == "event" else ("disk_eio_once" if fault.get("mode") == 2 else "disk_full") if fault["kind"] == "ioerr" else ("torn_write" if fault.get("torn") else "kill_at_syscall"))
             if fired:
                 faults[name] = faults.get(name, 0) + 1
                 probes[name] = probes.get(name, 0) + 1
